@@ -40,7 +40,31 @@ def sym_scalar(x, /, **kw):
     return _np.asarray(x, dtype=fuzzylite.library.settings.float_type, **kw)
 
 
+def _detoken(x):
+    """placeholder tokens inside (nested) lists of strings -> their symbolic numbers; other numeric strings -> float"""
+    if isinstance(x, str):
+        if x in S.tokens:
+            return S.tokens[x]
+        try:
+            return float(x)
+        except ValueError:
+            return x
+    if isinstance(x, (list, tuple)):
+        return [_detoken(e) for e in x]
+    return x
+
+
+def _has_token(x):
+    if isinstance(x, str):
+        return x in S.tokens
+    if isinstance(x, (list, tuple)):
+        return any(_has_token(e) for e in x)
+    return False
+
+
 def sym_array(x, *a, **kw):
+    if S.tokens and _has_token(x):
+        x = _detoken(x)
     if _has_sym(x):
         dt = kw.get("dtype")
         arr = SymArray(_obj(x))
